@@ -328,8 +328,8 @@ Qed.
 
 Definition returns_normally {A} (r : res A) : Prop := match r with Panic _ | NoFuel => False | _ => True end.
 
-(* parse_primary / parse_expr: a miss evaluates the parser once, logs the key and stores the result --
-   errors included -- so every later call at that position is a hit *)
+(* parse_primary / parse_expr / parse_method_call (wrapper [memo]): a miss evaluates the parser once, logs
+   the key and stores the result -- errors included -- so every later call at that position is a hit *)
 Lemma memo_miss_stores k p i c :
   get_cache k (ilen i) c = None -> cmemo (snd (p i c)) = true -> returns_normally (fst (p i c)) ->
   fst (memo k p i c) = fst (p i c) /\
@@ -345,8 +345,9 @@ Qed.
 Lemma memo_hit k p i c r : get_cache k (ilen i) c = Some r -> memo k p i c = (r, c).
 Proof. intro G. unfold memo. rewrite G. reflexivity. Qed.
 
-(* parse_method_call: a miss whose evaluation FAILS stores nothing and logs nothing (the `?` returns
-   before set_cache): the wrapper leaves the context exactly as the evaluation left it *)
+(* the wrapper parse_method_call used before /repo commit c0beeea ([memo_ok_only], no longer used by the
+   grammar): a miss whose evaluation FAILS stored nothing and logged nothing (the `?` returned before
+   set_cache): the wrapper leaves the context exactly as the evaluation left it *)
 Lemma memo_ok_only_failure_not_stored k p i c e m :
   get_cache k (ilen i) c = None -> fst (p i c) = Err e m ->
   memo_ok_only k p i c = p i c.
